@@ -211,10 +211,20 @@ def _ncalls(eng, args, kwargs):
 def _callarg(eng, args, kwargs):
     name, j, pname = args
     hits = [v for nm, v in eng.call_log if nm == name]
-    return hits[j][pname]
+    return hits[j][pname] if j < len(hits) else None
+
+
+def _elems(eng, args, kwargs):
+    v = args[0]
+    from .values import Iter
+
+    while isinstance(v, Iter):
+        v = v.seq
+    return v
 
 
 SPECLIB = {
+    "elems": SpecFn(_elems, "elems"),
     "ncalls": SpecFn(_ncalls, "ncalls"),
     "callarg": SpecFn(_callarg, "callarg"),
     "forall": SpecFn(lambda e, a, k: _quant(e, a, k, True), "forall"),
